@@ -1052,8 +1052,15 @@ class SSHProcess(SSHStreamSession, Generic[AnyStr]):
         for writer in list(self._writers.values()):
             writer.close()
 
+        datatypes = list(self._readers)
+
         self._readers = {}
         self._writers = {}
+
+        # A drain() woken up above went back to waiting while the
+        # redirect feeding this stream was still there
+        for datatype in datatypes:
+            self._unblock_drain(datatype)
 
     def data_received(self, data: AnyStr, datatype: DataType) -> None:
         """Handle incoming data from the SSH channel"""
